@@ -514,6 +514,19 @@ var l2LongNames = []string{
 	"gke-prod-europe-west4-payments-general-purpose-n2-standard-8-5f3a9c1e-zz9z",
 }
 
+// names where one is another plus a digit, to go with addresses where one is another with that digit in front
+var l2CollideNames = []string{"node1", "node11", "node2", "node21", "node3"}
+var l2CollideAddrs = [][]string{{"10.0.0.7"}, {"110.0.0.7"}, {"10.0.0.71"}, {"210.0.0.7"}, {"92.168.1.5"}, {"192.168.1.5"}, {"1.0.0.7"}, {"11.0.0.7"}}
+
+// a cluster larger than any fixed-size scratch buffer one would think of
+var l2LargeNames = func() []string {
+	var out []string
+	for i := 1; i <= 24; i++ {
+		out = append(out, fmt.Sprintf("worker-%02d", i))
+	}
+	return out
+}()
+
 func (f *l2Fixture) winner(set []string, addrs []string, svcName string, local bool, order []int) []string {
 	in := map[string]bool{}
 	for _, n := range set {
@@ -569,8 +582,13 @@ func TestVerif_C12(t *testing.T) {
 	var f *l2Fixture
 	useNames := func(kind string) {
 		l2NodeNames = l2ShortNames
-		if kind == "long" {
+		switch kind {
+		case "long":
 			l2NodeNames = l2LongNames
+		case "collide":
+			l2NodeNames = l2CollideNames
+		case "large":
+			l2NodeNames = l2LargeNames
 		}
 		if fixtures[kind] == nil {
 			fixtures[kind] = newL2Fixture()
@@ -598,6 +616,12 @@ func TestVerif_C12(t *testing.T) {
 			return
 		}
 		res.Outcome("winner=" + wS[0])
+		if c.T == nil && len(c.MapOrder) == 0 {
+			// the long-lived controllers have evaluated many other services before: speakers that start now must agree with them
+			if wf := newL2Fixture().winner(c.S, c.Addrs, "svcA", c.Local, nil); fmt.Sprint(wf) != fmt.Sprint(wS) {
+				res.Violate("C12 winner depends on the history of earlier views kind=differs-from-freshly-started-speakers", fmt.Sprintf("eligible %v address %v: long-lived speakers %v, fresh speakers %v", c.S, c.Addrs, wS, wf), c)
+			}
+		}
 		if c.T == nil {
 			// independence: service name, evaluation repetition (history), other addresses of the service
 			if w2 := f.winner(c.S, c.Addrs, "another-service-name", c.Local, c.MapOrder); fmt.Sprint(w2) != fmt.Sprint(wS) {
@@ -654,17 +678,41 @@ func TestVerif_C12(t *testing.T) {
 	}
 	var distinct int64
 	work := 0
-	for _, kind := range []string{"", "long"} {
+	for _, kind := range []string{"", "long", "collide", "large"} {
 		useNames(kind)
-		all := subsetsOf(l2NodeNames)
+		var all [][]string
 		cat := addrCatalogue
-		if kind == "long" && len(cat) > 20 {
-			cat = cat[:20]
+		switch kind {
+		case "long":
+			if len(cat) > 20 {
+				cat = cat[:20]
+			}
+		case "collide":
+			cat = l2CollideAddrs
+		case "large":
+			// every prefix of the node list from 14 nodes on, and each of them with one node taken out
+			cat = cat[:6]
+			for _, k := range []int{15, 16, 17, 18, 24} {
+				S := append([]string{}, l2NodeNames[:k]...)
+				all = append(all, S)
+				for drop := 0; drop < k; drop++ {
+					T := append(append([]string{}, S[:drop]...), S[drop+1:]...)
+					all = append(all, T)
+				}
+			}
+		}
+		if all == nil {
+			all = subsetsOf(l2NodeNames)
 		}
 		for _, addrs := range cat {
 			for _, local := range []bool{false, true} {
 				work++
-				if !verifrt.Mine(work) {
+				if kind == "collide" {
+					// state kept across evaluations is the point of this universe: one process sees all of its addresses
+					if verifrt.Shard() != 0 {
+						continue
+					}
+				} else if !verifrt.Mine(work) {
 					continue
 				}
 				for _, S := range all {
@@ -674,6 +722,9 @@ func TestVerif_C12(t *testing.T) {
 					distinct++
 					// every explored map-iteration order of the candidate list
 					for _, ord := range c12Orders(len(S)) {
+						if kind == "large" {
+							break // listing-order independence is covered by the small universes
+						}
 						cc := c
 						cc.MapOrder = ord
 						check(cc)
